@@ -600,4 +600,29 @@ theorem print_f_int_overflow_witness :
     layoutC cfgNow { prec := true } 0 [] { body := "1.5".toList } 2147483644 ≠ .error .undef := by
   decide
 
+/-- **print_f_nonfinite_text** — the complete text for NaN and the infinities, every flag set, width, precision and
+each of f/e/g (ISO C 7.21.6.1 p8): `[sign]inf` / `[sign]nan` (`INF` / `NAN` for F E G), sign by the - / + / space
+rule (the sign bit of a NaN is honoured), padded to `width` with BLANKS only - on the right with `-`, on the left
+otherwise: the `0` flag does not zero-pad a non-finite value, `#` and the precision have no effect; returned count
+= max(width, length of the text). -/
+theorem print_f_nonfinite_text {α : Type} (A : Arith α) (fuel : Nat) (r : α) (nanNeg : Bool) (width precision : Int)
+    (ops : Ops) (withExp isShort : Bool) (h : (A.isnan r || A.isinf r) = true) :
+    let s := nfText (A.isnan r) (if A.isnan r then nanNeg else A.signbit r) ops
+    let pad := List.replicate (width - s.length).toNat ' '
+    printF A cfgNow fuel r nanNeg width precision ops withExp isShort =
+      .ok (if ops.left then s ++ pad else pad ++ s, max width s.length) := by
+  intro s pad
+  unfold printF
+  simp only [h, cfgNow, Bool.and_true, if_true]
+  unfold nonFinite
+  simp only [s, pad]
+  generalize A.isnan r = b
+  generalize A.signbit r = sb
+  obtain ⟨left, sign, space, spec, zero, prec, upper, ptr, chr, len⟩ := ops
+  cases b <;> cases sb <;> cases nanNeg <;> cases sign <;> cases space <;> cases upper <;> cases left <;>
+    simp [Igris.C06.printS, Igris.C06.strlen, NUL, nfText, signText] <;> omega
+
+example : printF exactA cfgNow 0 (.inf true) false 8 3 { zero := true, prec := true, upper := true } true false =
+    .ok ("    -INF".toList, 8) := by decide +kernel
+
 end Igris.C13
